@@ -428,5 +428,109 @@ func runC14(cfg Config) {
 		c14ts.Close()
 		c14ts = nil
 	}
+	// (e) chunks fetched over one casync-protocol session stay intact while later requests use the same session:
+	// held chunk objects, and a chunk server whose client is slow to take the body (overlapping requests)
+	for it := 0; it < cfg.N(60, 1500); it++ {
+		var mu sync.Mutex
+		objs := map[desync.ChunkID][]byte{}
+		var ids []desync.ChunkID
+		datas := map[desync.ChunkID][]byte{}
+		size := 50 + rng.Intn(3000)
+		for k := 0; k < 3; k++ {
+			d := randBytes(rng, size-rng.Intn(20)) // similar sizes: a later reply fits the room an earlier one took
+			if rng.Intn(3) == 0 {
+				d = bytes.Repeat([]byte{byte(k + 1)}, size+rng.Intn(2000))
+			}
+			raw, _ := desync.Compress(d)
+			id := desync.Digest.Sum(d)
+			objs[id], datas[id] = raw, d
+			ids = append(ids, id)
+		}
+		client, closeP := rawProtocolStoreLabelled(&mu, objs, nil)
+		up := protoStore{client}
+		caseLine := fmt.Sprintf("proto.session it=%d size~%d", it, size)
+		rep.Count(caseLine, true, "proto-session")
+		// held chunk objects
+		var held []*desync.Chunk
+		for _, id := range ids {
+			c, err := up.GetChunk(id)
+			if err != nil {
+				monitor("a present chunk failed over the casync protocol: "+err.Error(), caseLine)
+				continue
+			}
+			held = append(held, c)
+		}
+		sdir := filepath.Join(cfg.Work, "proto-held")
+		os.RemoveAll(sdir)
+		os.MkdirAll(sdir, 0755)
+		ls, _ := desync.NewLocalStore(sdir, desync.StoreOptions{})
+		for _, c := range held {
+			id := c.ID()
+			if d, err := c.Data(); err != nil || !bytes.Equal(d, datas[id]) {
+				monitor("a chunk obtained over the casync protocol changed after later requests on the same session", caseLine)
+			}
+			if err := ls.StoreChunk(c); err != nil {
+				monitor("storing a chunk obtained over the casync protocol failed: "+err.Error(), caseLine)
+				continue
+			}
+			sid := hx(id[:])
+			raw, _ := os.ReadFile(filepath.Join(sdir, sid[:4], sid+".cacnk"))
+			if d, err := desync.Decompress(nil, raw); err != nil || !bytes.Equal(d, datas[id]) {
+				monitor("a chunk obtained over the casync protocol and stored after later requests on the same session is damaged in the store", caseLine)
+			}
+		}
+		// a chunk server in front of that session; the first client takes the body late
+		h := desync.NewHTTPHandler(up, false, false, desync.Converters{desync.Compressor{}}, "")
+		pathOf := func(id desync.ChunkID) string { s := hx(id[:]); return "/" + s[:4] + "/" + s + ".cacnk" }
+		wA := &gatedResponse{hdr: http.Header{}, gate: make(chan struct{}), entered: make(chan struct{}, 1)}
+		doneA := make(chan struct{})
+		go func() {
+			defer close(doneA)
+			defer func() { recover() }()
+			h.ServeHTTP(wA, httptest.NewRequest("GET", pathOf(ids[0]), nil))
+		}()
+		select {
+		case <-wA.entered:
+		case <-doneA:
+		case <-time.After(5 * time.Second):
+		}
+		for _, id := range ids[1:] {
+			wB := httptest.NewRecorder()
+			guard(func() string { h.ServeHTTP(wB, httptest.NewRequest("GET", pathOf(id), nil)); return "" })
+			if d, err := desync.Decompress(nil, wB.Body.Bytes()); wB.Code != 200 || err != nil || !bytes.Equal(d, datas[id]) {
+				monitor(fmt.Sprintf("a chunk server over a casync-protocol upstream delivered a damaged chunk (status %d)", wB.Code), caseLine)
+			}
+		}
+		close(wA.gate)
+		select {
+		case <-doneA:
+		case <-time.After(5 * time.Second):
+			monitor("a chunk server request did not return", caseLine)
+		}
+		if d, err := desync.Decompress(nil, wA.body.Bytes()); err != nil || !bytes.Equal(d, datas[ids[0]]) {
+			monitor("a chunk server over a casync-protocol upstream delivered a damaged chunk to a client that took the body while later requests were served", caseLine)
+		}
+		closeP()
+	}
 	rep.Write(cfg.Out)
+}
+
+// gatedResponse is a ResponseWriter whose Write waits for the gate before it takes the bytes (a slow client)
+type gatedResponse struct {
+	hdr     http.Header
+	code    int
+	body    bytes.Buffer
+	gate    chan struct{}
+	entered chan struct{}
+}
+
+func (g *gatedResponse) Header() http.Header { return g.hdr }
+func (g *gatedResponse) WriteHeader(c int)   { g.code = c }
+func (g *gatedResponse) Write(b []byte) (int, error) {
+	select {
+	case g.entered <- struct{}{}:
+	default:
+	}
+	<-g.gate
+	return g.body.Write(b)
 }
